@@ -582,6 +582,33 @@ func (a *linAn) phiFacts(bb *ssa.BasicBlock, base []lin) []lin {
 				continue
 			}
 			if isLoopHeader(cur) {
+				// a counter that only grows: p = φ(init, p + c) with c > 0 on every back edge
+				// never falls below its initial value
+				loop := naturalLoop(cur)
+				var init ssa.Value
+				mono := true
+				for i, pr := range cur.Preds {
+					e := p.Edges[i]
+					if !loop[pr] {
+						if init != nil && init != e {
+							mono = false
+						}
+						init = e
+						continue
+					}
+					bo, isBo := e.(*ssa.BinOp)
+					if !isBo || bo.Op != token.ADD || bo.X != ssa.Value(p) {
+						mono = false
+						continue
+					}
+					if c, isC := intConst(bo.Y); !isC || c <= 0 {
+						mono = false
+					}
+				}
+				if mono && init != nil {
+					t := lin{map[string]int{"v:" + p.Name(): 1}, 0}.add(a.expr(init), -1)
+					out = append(out, t)
+				}
 				continue
 			}
 			ps := "v:" + p.Name()
